@@ -7,6 +7,7 @@ From TucModel Require Import Base.Bytes Base.ListX Model.Bounds Model.Scan Model
   Tie.RsPrelude Tie.TieBase Tie.RsOpt Tie.RsStr Tie.RsList Tie.RsScan Tie.RsRegex Tie.RsCut
   Tie.Gen_ub_try_into_range Tie.Bridge_ub_try_into_range
   Tie.Gen_maybe_replace Tie.Bridge_maybe_replace Tie.CutStrFacts
+  Proofs.C12 Proofs.C16 Tie.Gen_trim_regex Tie.Bridge_trim_regex Tie.Gen_fill_regex Tie.Bridge_fill_regex Tie.Gen_compress_regex Tie.Bridge_compress_regex
   Tie.Gen_ubl_unpack Tie.Bridge_ubl_unpack Tie.Gen_ubl_complement Tie.Bridge_ubl_complement Tie.Bridge_ubl_has_negative_indices
   Tie.Gen_trim Tie.Bridge_trim Tie.Gen_fill_fields Tie.Bridge_fill_fields Tie.Gen_compress_delimiter Tie.Bridge_compress_delimiter
   Tie.Gen_cut_str.
@@ -130,7 +131,7 @@ Proof.
 Qed.
 
 Lemma s18_spec (o : opt) (line : bytes) (fields : list mtch) stdout buf eol lh sb d (b1 : ublist) (bs : list bof) (lf : side) :
-  o_regex o = None -> Forall item_nz bs -> Z.of_nat (length fields) <= i32_max ->
+  (forall text, exists t, maybe_replace o text = Some t) -> Forall item_nz bs -> Z.of_nat (length fields) <= i32_max ->
   match out_loop o line fields bs with
   | ROk r => gen_cut_str_s18 line o stdout (map mz fields) buf eol lh sb d (Z.of_nat (length fields)) b1 (mkL bs lf)
              = Ret (Some tt, stdout ++ r ++ s19_out o eol)
@@ -162,7 +163,7 @@ Proof.
         destruct (Z.leb_spec (Z.of_nat (snd fe)) (Z.of_nat (length line))); try lia; cbn [andb bind]; try reflexivity.
       replace (Z.to_nat (Z.of_nat (snd fe) - Z.of_nat (fst fs))) with (snd fe - fst fs)%nat by lia. rewrite Nat2Z.id.
       fold (slice line (fst fs) (snd fe)).
-      destruct (maybe_replace_literal o (slice line (fst fs) (snd fe)) Hre) as [t Ht].
+      destruct (Hre (slice line (fst fs) (snd fe))) as [t Ht].
       rewrite (tie_maybe_replace o _ t Ht), Ht. cbn [bind]. rewrite emit_json_text.
       destruct (o_json o).
       + destruct (json_text t) as [j|]; [|reflexivity].
@@ -223,7 +224,7 @@ Qed.
 
 (** [gen_cut_str_s17]: the unpacking of ranges, then the loop *)
 Lemma s17_spec (o : opt) (line : bytes) (fields : list mtch) stdout buf lh sb d (b1 u : ublist) :
-  o_regex o = None -> Forall item_nz (items u) -> Z.of_nat (length fields) <= i32_max ->
+  (forall text, exists t, maybe_replace o text = Some t) -> Forall item_nz (items u) -> Z.of_nat (length fields) <= i32_max ->
   let g := gen_cut_str_s17 line o stdout (map mz fields) buf [o_eol o] lh sb d (Z.of_nat (length fields)) b1 u in
   match (if unpack_wanted o && needs_unpack (items u)
          then match unpack_list (items u) (length fields) with Some l => Some (items l) | None => None end
@@ -258,7 +259,7 @@ Qed.
 
 (** from the table of fields on: -s on a record without a delimiter, --json's bracket, -m, the rest *)
 Lemma s10_spec (o : opt) (line : bytes) (fields : list mtch) buf lh sb d :
-  o_regex o = None -> o_btype o <> BChars ->
+  (forall text, exists t, maybe_replace o text = Some t) -> o_btype o <> BChars ->
   Forall item_nz (items (o_bounds o)) -> Z.of_nat (length fields) <= i32_max ->
   let g := gen_cut_str_s10 line o [] (map mz fields) buf [o_eol o] lh sb d in
   if (o_only_delimited o && Nat.eqb (length fields) 1)%bool then g = Ret (Some tt, [])
@@ -437,7 +438,7 @@ Proof.
     - rewrite tie_fill_fields by exact H2. cbn [bind]. reflexivity. }
   rewrite Hg; clear Hg.
   (* -s, -m, the unpacking, the output loop *)
-  pose proof (s10_spec o l2 fields buf1 [] false (o_delim o) Hre Hb Hnz Hf) as H10. cbv zeta in H10.
+  pose proof (s10_spec o l2 fields buf1 [] false (o_delim o) (fun text => maybe_replace_literal o text Hre) Hb Hnz Hf) as H10. cbv zeta in H10.
   destruct (o_only_delimited o && Nat.eqb (length fields) 1)%bool; [exact H10|].
   fold (unpack_wanted o).
   assert (Et : forall X : option rres, X = Some (tail_model o l2 fields) -> of_rres_cut X (gen_cut_str_s10 l2 o [] (map mz fields) buf1 [o_eol o] [] false (o_delim o))).
@@ -455,5 +456,171 @@ Proof.
     + destruct (out_loop o l2 fields (items (o_bounds o))); reflexivity.
 Qed.
 
+(** the same with -e RE, for the regexes of the modelled family *)
+Lemma maybe_replace_re o r text : o_regex o = Some (RxRe r) -> exists t, maybe_replace o text = Some t.
+Proof.
+  intros H. unfold maybe_replace. rewrite H. cbn [rx_normal].
+  destruct (o_btype o), (o_replace o), (o_compress o); eexists; reflexivity.
+Qed.
+
+Definition rline1 (o : opt) (r : re) (line0 : bytes) : bytes :=
+  match o_trim o with Some k => trim_matches k (re_find_iter (RPlus r) line0) line0 | None => line0 end.
+Definition rline2 (o : opt) (r : re) (l1 : bytes) : bytes :=
+  if compresses o then match o_replace o with Some nd => replace_matches l1 (re_find_iter (RPlus r) l1) nd | None => l1 end else l1.
+Definition rfields (o : opt) (r : re) (l1 : bytes) : list mtch :=
+  let l2 := rline2 o r l1 in
+  if compresses o
+  then match o_replace o with
+       | Some nd => fields_of_matches (if o_greedy o then merge_adjacent (lit_matches nd l2) else lit_matches nd l2) l2
+       | None => []
+       end
+  else fields_of_matches (if o_greedy o then re_find_iter (RPlus r) l2 else re_find_iter r l2) l2.
+
+Theorem tie_cut_str_regex : forall (o : opt) (r : re) (line0 : bytes) (fields0 : list (Z * Z)) (buf0 : list byte),
+  o_regex o = Some (RxRe r) -> o_btype o <> BChars ->
+  Forall item_nz (items (o_bounds o)) ->
+  (forall nd, o_replace o = Some nd ->
+     Z.of_nat (length (rline2 o r (rline1 o r line0))) + Z.of_nat (length nd) <= usize_max) ->
+  Z.of_nat (length (rfields o r (rline1 o r line0))) <= i32_max ->
+  of_rres_cut (cut_str o line0) (gen_cut_str line0 o fields0 buf0 [o_eol o]).
+Proof.
+  intros o r line0 fields0 buf0 Hre Hb Hnz H2 Hf.
+  assert (Eb : btype_eqb (o_btype o) BChars = false) by (destruct (o_btype o); try reflexivity; exfalso; apply Hb; reflexivity).
+  pose proof (fun text => maybe_replace_re o r text Hre) as Hmr.
+  unfold cut_str. rewrite Hre.
+  cbv beta delta [gen_cut_str] iota zeta. rewrite Hre. cbv iota beta.
+  (* --regex with -p or -j needs -r *)
+  destruct (o_replace o) as [nd|] eqn:Er.
+  2:{ destruct (o_compress o) eqn:Ec; cbn [andb orb]; [eexists; reflexivity|].
+      destruct (o_join o) eqn:Ej; cbn [andb orb]; [eexists; reflexivity|].
+      (* no -r, no -p, no -j *)
+      cbv beta delta [gen_cut_str_s1 gen_cut_str_s2] iota zeta. rewrite Hre. cbv iota beta. cbn [opt_unwrap bind].
+      assert (Hl1 : forall stdout, (match o_trim o with
+            | Some k => bind (gen_trim_regex line0 k (rb_greedy (RxRe r))) (fun v => gen_cut_str_s3 v o stdout fields0 buf0 [o_eol o])
+            | None => gen_cut_str_s3 line0 o stdout fields0 buf0 [o_eol o] end)
+            = gen_cut_str_s3 (rline1 o r line0) o stdout fields0 buf0 [o_eol o]).
+      { intros stdout. unfold rline1. destruct (o_trim o) as [k|]; [|reflexivity].
+        rewrite (tie_trim_regex line0 k (rb_greedy (RxRe r)) (re_find_iter (RPlus r) line0)); [reflexivity | reflexivity | apply (proj1 (re_matches_wf (RPlus r) line0))]. }
+      match goal with |- of_rres_cut _ ?g =>
+        assert (Hg : g = gen_cut_str_s3 (rline1 o r line0) o [] fields0 buf0 [o_eol o]) by (rewrite <- Hl1; destruct (o_trim o); reflexivity);
+        rewrite Hg; clear Hg end.
+      cbn [rx_greedy rx_normal].
+      replace (match o_trim o with Some k => Some (trim_matches k (re_find_iter (RPlus r) line0) line0) | None => Some line0 end)
+        with (Some (rline1 o r line0)) by (unfold rline1; destruct (o_trim o); reflexivity).
+      set (l1 := rline1 o r line0) in *.
+      cbv beta delta [gen_cut_str_s3] iota zeta.
+      destruct l1 as [|c l1'] eqn:El1; [destruct (o_only_delimited o); cbn [negb of_rres_cut app]; reflexivity|].
+      rewrite <- El1 in *. clear El1 c l1'. cbv iota beta.
+      cbv beta delta [gen_cut_str_s4 gen_cut_str_s5 gen_cut_str_s6 gen_cut_str_s7 gen_cut_str_s8] iota zeta.
+      rewrite Hre, Ec. cbn [andb]. cbv beta delta [gen_cut_str_s9] iota zeta. rewrite Hre, Eb. cbn [opt_unwrap bind].
+      assert (Ecz : compresses o = false) by (unfold compresses; rewrite Ec; reflexivity).
+      unfold rfields, rline2 in Hf. rewrite Ecz in Hf. fold l1 in Hf.
+      set (fields := fields_of_matches (if o_greedy o then re_find_iter (RPlus r) l1 else re_find_iter r l1) l1) in *.
+      match goal with |- of_rres_cut _ ?g =>
+        assert (Hg : g = gen_cut_str_s10 l1 o [] (map mz fields) buf0 [o_eol o] [] true (o_delim o)) end.
+      { unfold fields. destruct (o_greedy o).
+        - rewrite (tie_fill_regex fields0 l1 (rb_greedy (RxRe r)) (re_find_iter (RPlus r) l1)) by reflexivity. reflexivity.
+        - rewrite (tie_fill_regex fields0 l1 (rb_normal (RxRe r)) (re_find_iter r l1)) by reflexivity. reflexivity. }
+      rewrite Hg; clear Hg.
+      replace (if o_greedy o then Some (re_find_iter (RPlus r) l1) else Some (re_find_iter r l1))
+        with (Some (if o_greedy o then re_find_iter (RPlus r) l1 else re_find_iter r l1)) by (destruct (o_greedy o); reflexivity).
+      fold fields.
+      pose proof (s10_spec o l1 fields buf0 [] true (o_delim o) Hmr Hb Hnz Hf) as H10. cbv zeta in H10.
+      destruct (o_only_delimited o && Nat.eqb (length fields) 1)%bool; [exact H10|].
+      assert (Et : forall X : option rres, X = Some (tail_model o l1 fields) -> of_rres_cut X (gen_cut_str_s10 l1 o [] (map mz fields) buf0 [o_eol o] [] true (o_delim o))).
+      { intros X ->. destruct (tail_model o l1 fields); cbn [of_rres_cut]; try exact H10; exact I. }
+      apply Et. unfold tail_model, tail2, unpack_wanted. rewrite Eb, Er.
+      destruct (o_complement o).
+      - destruct (complement_list (items (o_bounds o)) (length fields)) as [u|]; [|reflexivity].
+        match goal with |- context [if ?c then _ else _] => destruct c end.
+        + destruct (unpack_list (items u) (length fields)) as [v|]; [|reflexivity].
+          destruct (out_loop o l1 fields (items v)); reflexivity.
+        + destruct (out_loop o l1 fields (items u)); reflexivity.
+      - match goal with |- context [if ?c then _ else _] => destruct c end.
+        + destruct (unpack_list (items (o_bounds o)) (length fields)) as [v|]; [|reflexivity].
+          destruct (out_loop o l1 fields (items v)); reflexivity.
+        + destruct (out_loop o l1 fields (items (o_bounds o))); reflexivity. }
+  (* with -r nd *)
+  cbn [andb]. rewrite !andb_false_r. cbv iota beta.
+  cbv beta delta [gen_cut_str_s1 gen_cut_str_s2] iota zeta. rewrite Hre. cbv iota beta. cbn [opt_unwrap bind].
+  assert (Hl1 : forall stdout, (match o_trim o with
+        | Some k => bind (gen_trim_regex line0 k (rb_greedy (RxRe r))) (fun v => gen_cut_str_s3 v o stdout fields0 buf0 [o_eol o])
+        | None => gen_cut_str_s3 line0 o stdout fields0 buf0 [o_eol o] end)
+        = gen_cut_str_s3 (rline1 o r line0) o stdout fields0 buf0 [o_eol o]).
+  { intros stdout. unfold rline1. destruct (o_trim o) as [k|]; [|reflexivity].
+    rewrite (tie_trim_regex line0 k (rb_greedy (RxRe r)) (re_find_iter (RPlus r) line0)); [reflexivity | reflexivity | apply (proj1 (re_matches_wf (RPlus r) line0))]. }
+  match goal with |- of_rres_cut _ ?g =>
+    assert (Hg : g = gen_cut_str_s3 (rline1 o r line0) o [] fields0 buf0 [o_eol o]) by (rewrite <- Hl1; destruct (o_compress o), (o_join o), (o_trim o); reflexivity);
+    rewrite Hg; clear Hg end.
+  cbn [rx_greedy rx_normal].
+  replace (match o_trim o with Some k => Some (trim_matches k (re_find_iter (RPlus r) line0) line0) | None => Some line0 end)
+    with (Some (rline1 o r line0)) by (unfold rline1; destruct (o_trim o); reflexivity).
+  set (l1 := rline1 o r line0) in *.
+  cbv beta delta [gen_cut_str_s3] iota zeta.
+  destruct l1 as [|c l1'] eqn:El1; [destruct (o_only_delimited o); cbn [negb of_rres_cut app]; reflexivity|].
+  rewrite <- El1 in *. clear El1 c l1'. cbv iota beta.
+  cbv beta delta [gen_cut_str_s4 gen_cut_str_s5 gen_cut_str_s6 gen_cut_str_s7 gen_cut_str_s8] iota zeta.
+  rewrite Hre, Er. cbn [andb opt_unwrap bind]. fold (compresses o).
+  unfold rfields, rline2 in Hf. rewrite Er in Hf. fold l1 in Hf. specialize (H2 nd eq_refl). unfold rline2 in H2. rewrite Er in H2. fold l1 in H2.
+  destruct (compresses o) eqn:Ecz.
+  - (* -p: every run of matches rewritten to nd, then the literal splitter on nd *)
+    rewrite (tie_compress_regex l1 nd (rb_greedy (RxRe r)) (re_find_iter (RPlus r) l1)) by reflexivity. cbn [bind].
+    set (l2 := replace_matches l1 (re_find_iter (RPlus r) l1) nd) in *.
+    cbv beta delta [gen_cut_str_s9] iota zeta.
+    set (fields := fields_of_matches (if o_greedy o then merge_adjacent (lit_matches nd l2) else lit_matches nd l2) l2) in *.
+    match goal with |- of_rres_cut _ ?g =>
+      assert (Hg : g = gen_cut_str_s10 l2 o [] (map mz fields) buf0 [o_eol o] l2 false nd) end.
+    { unfold fields. destruct (o_greedy o).
+      - unfold model_fill_greedy. cbn [bind]. reflexivity.
+      - rewrite tie_fill_fields by exact H2. cbn [bind]. reflexivity. }
+    rewrite Hg; clear Hg.
+    replace (if o_greedy o then Some (merge_adjacent (lit_matches nd l2)) else Some (lit_matches nd l2))
+      with (Some (if o_greedy o then merge_adjacent (lit_matches nd l2) else lit_matches nd l2)) by (destruct (o_greedy o); reflexivity).
+    rewrite Eb. fold fields.
+    pose proof (s10_spec o l2 fields buf0 l2 false nd Hmr Hb Hnz Hf) as H10. cbv zeta in H10.
+    destruct (o_only_delimited o && Nat.eqb (length fields) 1)%bool; [exact H10|].
+    assert (Et : forall X : option rres, X = Some (tail_model o l2 fields) -> of_rres_cut X (gen_cut_str_s10 l2 o [] (map mz fields) buf0 [o_eol o] l2 false nd)).
+    { intros X ->. destruct (tail_model o l2 fields); cbn [of_rres_cut]; try exact H10; exact I. }
+    apply Et. unfold tail_model, tail2, unpack_wanted. rewrite Eb, Er.
+    destruct (o_complement o).
+    + destruct (complement_list (items (o_bounds o)) (length fields)) as [u|]; [|reflexivity].
+      match goal with |- context [if ?c then _ else _] => destruct c end.
+      * destruct (unpack_list (items u) (length fields)) as [v|]; [|reflexivity].
+        destruct (out_loop o l2 fields (items v)); reflexivity.
+      * destruct (out_loop o l2 fields (items u)); reflexivity.
+    + match goal with |- context [if ?c then _ else _] => destruct c end.
+      * destruct (unpack_list (items (o_bounds o)) (length fields)) as [v|]; [|reflexivity].
+        destruct (out_loop o l2 fields (items v)); reflexivity.
+      * destruct (out_loop o l2 fields (items (o_bounds o))); reflexivity.
+  - (* no -p: the regex splitter *)
+    cbv beta delta [gen_cut_str_s9] iota zeta. rewrite Hre, Eb. cbn [opt_unwrap bind].
+    set (fields := fields_of_matches (if o_greedy o then re_find_iter (RPlus r) l1 else re_find_iter r l1) l1) in *.
+    match goal with |- of_rres_cut _ ?g =>
+      assert (Hg : g = gen_cut_str_s10 l1 o [] (map mz fields) buf0 [o_eol o] [] true (o_delim o)) end.
+    { unfold fields. destruct (o_greedy o).
+      - rewrite (tie_fill_regex fields0 l1 (rb_greedy (RxRe r)) (re_find_iter (RPlus r) l1)) by reflexivity. reflexivity.
+      - rewrite (tie_fill_regex fields0 l1 (rb_normal (RxRe r)) (re_find_iter r l1)) by reflexivity. reflexivity. }
+    rewrite Hg; clear Hg.
+    replace (if o_greedy o then Some (re_find_iter (RPlus r) l1) else Some (re_find_iter r l1))
+      with (Some (if o_greedy o then re_find_iter (RPlus r) l1 else re_find_iter r l1)) by (destruct (o_greedy o); reflexivity).
+    fold fields.
+    pose proof (s10_spec o l1 fields buf0 [] true (o_delim o) Hmr Hb Hnz Hf) as H10. cbv zeta in H10.
+    destruct (o_only_delimited o && Nat.eqb (length fields) 1)%bool; [exact H10|].
+    assert (Et : forall X : option rres, X = Some (tail_model o l1 fields) -> of_rres_cut X (gen_cut_str_s10 l1 o [] (map mz fields) buf0 [o_eol o] [] true (o_delim o))).
+    { intros X ->. destruct (tail_model o l1 fields); cbn [of_rres_cut]; try exact H10; exact I. }
+    apply Et. unfold tail_model, tail2, unpack_wanted. rewrite Eb, Er.
+    destruct (o_complement o).
+    + destruct (complement_list (items (o_bounds o)) (length fields)) as [u|]; [|reflexivity].
+      match goal with |- context [if ?c then _ else _] => destruct c end.
+      * destruct (unpack_list (items u) (length fields)) as [v|]; [|reflexivity].
+        destruct (out_loop o l1 fields (items v)); reflexivity.
+      * destruct (out_loop o l1 fields (items u)); reflexivity.
+    + match goal with |- context [if ?c then _ else _] => destruct c end.
+      * destruct (unpack_list (items (o_bounds o)) (length fields)) as [v|]; [|reflexivity].
+        destruct (out_loop o l1 fields (items v)); reflexivity.
+      * destruct (out_loop o l1 fields (items (o_bounds o))); reflexivity.
+Qed.
+
 Definition tie_cut_str := tie_cut_str_literal.
 Print Assumptions tie_cut_str_literal.
+Print Assumptions tie_cut_str_regex.
